@@ -86,6 +86,22 @@ pub fn explicit_family(rng: &mut Rng) -> (Mol, Vec<(usize, usize, f64)>) {
         }
         return (Mol { name: "two-centres-of-one-metal".into(), zs, xs }, bonds);
     }
+    if rng.chance(0.2) {
+        // bridged species (a bond table gives a nominally monovalent atom two neighbours): X2(mu-Y)2 H4 four-rings (diborane, Al2Cl6-like),
+        // a symmetric X-Y-X (bifluoride), in idealised geometry slightly distorted
+        let x = *rng.pick(&[5usize, 13, 4, 12, 6, 14]); let y = *rng.pick(&[1usize, 9, 17, 3, 11, 1]);
+        if rng.chance(0.3) {
+            let r = radius(x) + radius(y);
+            return (Mol { name: "bridge-xyx".into(), zs: vec![x, y, x], xs: vec![[-r, 0.02, 0.0], [0.0, 0.0, 0.01], [r, -0.02, 0.0]] }, vec![(0, 1, 1.0), (1, 2, 1.0)]);
+        }
+        let (rx, ry) = (1.0 * (radius(x) + radius(y)) * 0.75, (radius(x) + radius(y)) * 0.66);
+        let rh = radius(x) + radius(1);
+        let zs = vec![x, x, y, y, 1, 1, 1, 1];
+        let mut xs = vec![[-rx, 0.0, 0.0], [rx, 0.0, 0.0], [0.0, 0.0, ry], [0.0, 0.0, -ry],
+                          [-rx - 0.55 * rh, 0.83 * rh, 0.0], [-rx - 0.55 * rh, -0.83 * rh, 0.0], [rx + 0.55 * rh, 0.83 * rh, 0.0], [rx + 0.55 * rh, -0.83 * rh, 0.0]];
+        for p in xs.iter_mut() { for c in 0..3 { p[c] += rng.range(-0.03, 0.03); } }
+        return (Mol { name: "bridged-four-ring".into(), zs, xs }, vec![(0, 2, 1.0), (2, 1, 1.0), (1, 3, 1.0), (3, 0, 1.0), (0, 4, 1.0), (0, 5, 1.0), (1, 6, 1.0), (1, 7, 1.0)]);
+    }
     if rng.chance(0.6) {
         zs.push(*rng.pick(&[6usize, 6, 7, 5])); xs.push([0.0, 0.0, 0.0]);
         let pyr = rng.range(0.02, 0.3);
